@@ -22,7 +22,39 @@ HARNESSES = [
     # (UB UninitRead) -- the driver prints that for the model leg when C02_VG is set
     {"name": "vg", "src": "harness.cpp", "compiler": os.path.join(os.path.dirname(os.path.abspath(__file__)), "vgcxx.py"),
      "flags": ["-O1", "-g", "-DC02_SAN=1", "-DC02_VG=1", "-DTETL_ENABLE_CONTRACT_CHECKS=1"], "env": {"C02_VG": "1"}},
+    # the alignment leg (align.cpp; ops align / asdef / san_canary, every other op is `skip` there and these ops are `skip` in
+    # harness.cpp): static alignment facts + containers placed at the least aligned legal addresses; checked build, -O2 build
+    # (the optimiser may rely on alignof), ASan+UBSan build (-fsanitize=undefined contains -fsanitize=alignment: a misaligned
+    # construction / load aborts; `san_canary` proves on every run that it does)
+    {"name": "al", "src": "align.cpp", "flags": ["-O1", "-DTETL_ENABLE_CONTRACT_CHECKS=1"]},
+    {"name": "alo2", "src": "align.cpp", "flags": ["-O2"]},
+    {"name": "alsan", "src": "align.cpp", "flags": ["-O1", "-g0", "-DC02_SAN=1", "-DTETL_ENABLE_CONTRACT_CHECKS=1"] + SAN},
 ]
+# alignment leg: element types of align.cpp (code, sizeof, alignof; t* = trivial) and storage families
+ALIGN_ELEMS = [("s2", 2, 2), ("i4", 4, 4), ("d8", 8, 8), ("ld16", 16, 16), ("i12", 12, 4), ("c3", 3, 1), ("d24", 24, 8),
+               ("o16", 16, 16), ("o32", 32, 32), ("o64", 64, 64), ("ti4", 4, 4), ("td8", 8, 8), ("tc3", 3, 1), ("to32", 32, 32)]
+ALIGN_PLACEMENTS = (0, 1, 20, 21, 3, 4, 5, 6, 7, 8, 9)
+
+
+def _asdef_al(n):
+    """default alignment of aligned_storage_t<n> (largest fundamental alignment that fits): which callables fit `fund`"""
+    return 16 if n >= 16 else 8 if n >= 8 else 4 if n >= 4 else 2 if n >= 2 else 1
+
+
+def _align_cases():
+    out = ["san_canary align", "san_canary construct", "san_canary heap"]
+    for code, s, a in ALIGN_ELEMS:
+        fams = [("sv", 1), ("sv", 3), ("iv", 1), ("iv", 3), ("ua", 3), ("as", 1), ("au", 1), ("opt", 1), ("var", 1), ("exp", 1),
+                ("exu", 1), ("fun", 1)]
+        if s <= 3:
+            fams += [("sv", 300), ("iv", 300)]
+        if a <= _asdef_al(s):
+            fams.append(("fund", 1))
+        for fam, n in fams:
+            for p in ALIGN_PLACEMENTS:
+                out.append(f"align {fam} {code} {s} {a} {n} {p}")
+    out += [f"asdef {n}" for n in range(1, 65)]
+    return out
 N_BATTERIES = 16
 N_CE = 14
 KINDS = ("sv_int", "sv_nt", "iv_int", "iv_nt", "str7", "str15", "str16", "str255", "str256", "wstr7", "wstr16",
@@ -42,6 +74,12 @@ RULE = ("own legs: %d operation batteries (vectors, inplace_vector, strings in b
         "view of length <= 3 (9-character alphabet, flush against the end of an exact-size heap buffer) + seeded random longer ones; "
         "strtod / strtof / atof on every C string of length <= 3 whose terminator is the last byte of an exact-size heap buffer; "
         "from_floating_point for exactly representable values x precisions 0..6 x every span length around the exact fit (exact-size heap buffers); "
+        "alignment battery (align.cpp, builds -O1 checked / -O2 / ASan+UBSan): 11 in-object storage families (static_vector, inplace_vector, "
+        "uninitialized_array, aligned_storage, aligned_union, optional, variant, expected value / error, inplace_function with explicit / default "
+        "alignment) x 14 element types (ordinary, over-aligned 16 / 32 / 64, odd sizes, non-trivial and trivial) x 11 placements at the least "
+        "aligned legal addresses, alignof / sizeof / slot offset / stride / placement offset compared with the layout model, misaligned slots "
+        "counted and (variant alsan) trapped by -fsanitize=alignment; aligned_storage_t<1..64> default alignment; san_canary: the sanitizer "
+        "builds must abort on a deliberate misaligned load / constructor call / heap overflow; "
         "aggregated legs: the cases of the listed packages' generators re-run under the sanitizer variant the package declares (for the "
         "packages that declare none: the package's main harness built with ASan+UBSan by C02) "
         "(-fno-sanitize-recover / trap) and compared with the extracted model (a sanitizer report = `crash` = disagreement); "
@@ -51,7 +89,9 @@ TRUSTED_BASE = ["ASan/UBSan runtime of g++ 12 (what they can see: heap/stack/glo
                 "and, for the constexpr batteries, by GCC's constant evaluator)",
                 "GCC 12 constant evaluator as UB oracle for the constexpr batteries (fixed inputs: seeds 0, 1, 7)",
                 "allocation counter: replaced operator new/delete + interposed malloc/calloc/realloc",
-                "valgrind 3.19 memcheck (variant vg): use of uninitialised values, invalid heap reads/writes at run time"]
+                "valgrind 3.19 memcheck (variant vg): use of uninitialised values, invalid heap reads/writes at run time",
+                "-fsanitize=alignment (part of -fsanitize=undefined) of g++ 12: shown to abort on a misaligned load and a misaligned constructor call "
+                "on every run (op san_canary); x86-64 SysV sizes / alignments of the fundamental types (in coq/C02/ModelAlign.v)"]
 ASSUMPTIONS = ["memory safety of the compiled object code beyond the models' index/initialisation/overflow discipline is sanitizer-observed, not proved"]
 
 # every package with a model (C05: the precondition-violating calls -- under ASan+UBSan they show that the contract check
@@ -102,6 +142,7 @@ def gen(tier, rng):
                 for se in (0, 1, 3, 4):
                     for cd in range(-1, se + 1):
                         out.append(f"throwing {kind} {assign} {te} {se} {cd}")
+    out += _align_cases()
     return out
 
 
